@@ -262,6 +262,13 @@ fn check(c: &Case, places: &[(&'static str, BBox)]) -> CaseResult {
                             // corner routing
                             if matches!(c.kind, Kind::Corner | Kind::CornerOff(_)) {
                                 let (e1, e2) = (edge_of(&c.start, p1, &a), edge_of(&c.end, p2, &b));
+                                if e1.is_none() || e2.is_none() {
+                                    // an endpoint without an edge (a literal point, a corner, the centre): there is no
+                                    // edge to leave perpendicular to, but the segments are axis-parallel all the same
+                                    if pts.windows(2).any(|w| (w[0].0 - w[1].0).abs() > tol && (w[0].1 - w[1].1).abs() > tol) {
+                                        mk("corner-polyline-with-directionless-endpoint-is-diagonal", format!("{doc}\npoints {pts:?}"));
+                                    }
+                                }
                                 if let (Some(e1), Some(e2)) = (e1, e2) {
                                     for w in pts.windows(2) {
                                         let (dx, dy) = ((w[0].0 - w[1].0).abs(), (w[0].1 - w[1].1).abs());
